@@ -96,7 +96,7 @@ def prune(interp, cond):
     s.add(z3.Not(cond))
     if s.check() == z3.unsat:
         return True
-    if interp.state.get("n_loops") and interp.state.get("prune_quantified", True):
+    if (interp.state.get("n_loops") or interp.state.get("generic_depth")) and interp.state.get("prune_quantified", True):
         # after a loop was summarised by its invariant the facts about the heap are quantified (frames, invariants):
         # second attempt with all assumptions and E-matching (an `unsat` is sound whatever the heuristics do)
         qs = z3.Solver()
@@ -694,10 +694,15 @@ def _model_dict(solver, terms):
         return None
 
 
-def run_derivation(world, cname, contract, iter_bound=1, chg_one_slot=False, loop_contracts=None, callee_contracts=None, focus_loop=None):
+def run_derivation(world, cname, contract, iter_bound=1, chg_one_slot=False, loop_contracts=None, callee_contracts=None, focus_loop=None, summarise=None):
     it = Interp(world)
     GM.install(it)
     it.prune = prune
+    if summarise:
+        from . import summarise as SM
+        from .interp import Builtin as _B2
+
+        it.builtins["__comprehension__"] = _B2("__comprehension__", SM.hook)
     for key, fn in (callee_contracts or {}).items():
         it.contracts[key] = fn
     cls = world.cls(cname)
@@ -710,6 +715,7 @@ def run_derivation(world, cname, contract, iter_bound=1, chg_one_slot=False, loo
         interp.state["chg_one_slot"] = chg_one_slot
         interp.state["loop_contracts"] = loop_contracts
         interp.state["focus_loop"] = focus_loop
+        interp.state["summarise"] = summarise
         h = heap_of(interp)
         g = GM.sym_graph(interp, cname, "g_")
         interp.assume(h.A0 >= 0)
@@ -765,10 +771,10 @@ def fresh_clauses(vR: "GM.View", A0, cname):
 
 
 def verify_derivation(obs, world, cname, dname, contract, pid, timeout=20000, iter_bound=1, chg_one_slot=False, want=("view", "wf", "fresh", "source"), loop_contracts=None,
-                      callee_contracts=None, focus_loop=None):
+                      callee_contracts=None, focus_loop=None, summarise=None):
     base = f"{REL[cname]}:{cname}.{dname}"
     try:
-        paths = run_derivation(world, cname, contract, iter_bound, chg_one_slot, loop_contracts, callee_contracts, focus_loop)
+        paths = run_derivation(world, cname, contract, iter_bound, chg_one_slot, loop_contracts, callee_contracts, focus_loop, summarise)
     except OutOfSubset as e:
         obs.append(Ob(f"E1/{base}", "proof", ERROR, detail=f"out of subset: {e}"))
         return
